@@ -23,7 +23,7 @@ spec -> code: MC_C20 - TLC enumerates every tree of <= MaxEntries entries (11 di
               (COMPONENTS.dirs as str / Path / nested, STATICFILES_DIRS plain and tuple form, the default
               BASE_DIR/components, app_dirs of an app inside BASE_DIR, of a nested app with a custom app_dirs
               name, of an app outside BASE_DIR, a project path containing "[1]") x 4 suffixes (".py", None,
-              ".js", ".pyx"), plus 11 SPELLING variants over a lighter tree pool (public, "_" and "." entries,
+              ".js", ".pyx"), plus 11 SPELLING variants (suffixes ".py", None) over a lighter tree pool (public, "_" and "." entries,
               packages): dirs with "..", STATICFILES_DIRS tuple with "x/../x", the same directory twice as
               Path with "." and str with trailing slash, real path + symbolic link, link only, app_dirs
               "parts/inner", "components/", "./parts/inner", the same app_dirs entry twice, BASE_DIR with ".."
@@ -461,6 +461,7 @@ def model_check_and_replay(chk: Check, world: World, max_entries: int, small: Li
         f"  Codes = {_set(codes)}\n  SmallCodes = {_set(small)}\n  MaxEntries = {max_entries}\n"
         f"  CfgSfxIdx = {_set([1, 2] if cfg_sfx is None else cfg_sfx)}\n"
         f"  SpelledCfgSfxIdx = {_set([1] if spelled_cfg_sfx is None else spelled_cfg_sfx)}\n"
+        f"  LightSfxIdx = {_set(sorted({1, 2} & set(sfx or range(1, N_SFX + 1))))}\n"
         f"  LightVarIdx = {_set(LIGHT_VARIANTS)}\n  LightCodes = {_set(sorted(set(SMALL_QUICK + LIGHT_EXTRA) & set(codes)))}\n"
         "INVARIANT Theorems\nINVARIANT Export\n")
     key = cfg.read_text()
@@ -577,12 +578,14 @@ def startup_probe(chk: Check, world: World, row: Dict[str, Any], script: Path) -
 
 def _stratum(r: Dict[str, Any]) -> str:
     """Sampling stratum of an exported case (which cases get a real start-up; expectations stay TLC's):
-    the root variant, or for the configuration family COMPONENTS.dirs not given / empty / non-empty crossed
+    the root variant (the spelling variants together: project directories / app directories), or for the
+    configuration family COMPONENTS.dirs not given / empty / non-empty crossed
     with STATICFILES_DIRS empty / non-empty, and the configurations with spelled paths (dirs given / not)."""
+    spelled = r["cfg"]["base"] != "plain" or any(m["spell"] != "plain" for x in r["roots"] for m in x["src"]) or \
+        any(e["spell"] != "plain" or len(e["segs"]) > 1 for e in r["cfg"]["appnames"])
     if r["label"] != "cfg":
-        return r["label"]
-    if r["cfg"]["base"] != "plain" or any(e["spell"] != "plain" or len(e["segs"]) > 1 for e in r["cfg"]["appnames"]) or \
-            any(m["spell"] != "plain" for x in r["roots"] for m in x["src"]):
+        return "spelled:" + r["roots"][0]["kind"] if spelled else r["label"]
+    if spelled:
         return "cfg:spelled:dirs-" + r["cfg"]["dirs"]
     listed = any(m["in"] == "dirs" for x in r["roots"] for m in x["src"])
     static = any(m["in"] == "static" for x in r["roots"] for m in x["src"])
